@@ -549,6 +549,16 @@ func smallTypeSystems(k int) []string {
 }
 
 var handSchemas = []string{
+	// built-in names redefined, extended, referred to and misapplied
+	"scalar String type Query { a: String }", "type Int { x: Int } type Query { a: Int }", "enum Boolean { T F } type Query { a: Boolean }", "scalar ID scalar Float type Query { a: ID }",
+	"type Query { t: __Type s: __Schema k: __TypeKind f: __Field i: __InputValue e: __EnumValue d: __Directive l: __DirectiveLocation }", "input I { f: __Type } type Query { a(i: I): Int }",
+	"type Query { a(k: __TypeKind = OBJECT, l: [__DirectiveLocation!] = [QUERY, FIELD]): Int }", "extend type __Schema { x: Int } type Query { a: Int }", "extend type __Type implements Named interface Named { name: String } type Query { a: Int }",
+	"type T @oneOf { x: Int } type Query { t: T }", "input I @oneOf { a: Int b: String } type Query { f(i: I): Int }", "input I @oneOf { a: Int! } type Query { f(i: I): Int }", "input I @oneOf { a: Int = 1 } type Query { f(i: I): Int }",
+	"type Query { a: Int @deprecated(reason: \"r\") b(x: Int @deprecated): Int } enum E { A @deprecated } input In { f: Int @deprecated }", "type Query @deprecated { a: Int }", "type Query { a: Int @include(if: true) }",
+	"type Query { a: Int @skip(if: false) }", "scalar Date @specifiedBy(url: \"u\") type Query { d: Date }", "scalar Date @specifiedBy type Query { d: Date }", "type Query @specifiedBy(url: \"u\") { a: Int }",
+	"directive @skip(if: Boolean!) on FIELD type Query { a: Int }", "directive @oneOf on OBJECT type T @oneOf { x: Int } type Query { t: T }", "directive @defer(label: String) on FIELD type Query { a: Int }",
+	"type Query { __typename: String }", "type Query { __schema: Int a: Int }", "type Query { a(__x: Int): Int }", "input I { __f: Int } type Query { a(i: I): Int }", "enum E { __A } type Query { e: E }", "directive @__d on FIELD type Query { a: Int }",
+	"type Query { a: Int } type Mutation { __typename: Int }", "union U = __Type | Query type Query { u: U }", "type T implements __Named { x: Int } type Query { t: T }",
 	// an undefined interface named by the type that another implementer narrows a field to
 	"interface Person { n: Int } interface Content { author: Person } type Article implements Content { author: Writer } type Writer implements Missing & Person { n: Int } type Query { a: Article }",
 	"interface Person { n: Int } interface Content { author: Person } type Article implements Content { author: Writer } type Writer implements Person & Missing { n: Int } union Ux = Writer | Gone type Query { a: Article }",
